@@ -53,7 +53,7 @@ def parseBOp (s : String) : Option (Option BOp) :=   -- inner none = entry with 
 
 def bound (b : Option (List Nat)) : Option Nat := b.map encKey
 
-def step (o : Overlay) (line : String) : Overlay × String :=
+def step1 (o : Overlay) (line : String) : Overlay × String :=
   let apply (op : Op) : Overlay × String := let r := o.step op; (r.1, showRes r.2)
   match splitSp line with
   | ["new"] => (Overlay.init [], "ok")
@@ -84,6 +84,27 @@ def step (o : Overlay) (line : String) : Overlay × String :=
     | _, _ => (o, "bad-op")
   | _ => (o, "bad-op")
 
+/-- batch objects: `bnew` | `bs k v` (`v = -`: refused) | `bd k` | `bwrite` | `bclose`; everything else goes to `step1` -/
+def step (w : Staged Overlay) (line : String) : Staged Overlay × String :=
+  let x (op : XOp) : Staged Overlay × String := let r := xstep Overlay.step w op; (r.1, showRes r.2)
+  match splitSp line with
+  | ["new"] => (⟨Overlay.init [], none⟩, "ok")
+  | ["new", base] => match parseBase base with
+    | some m => (⟨Overlay.init m, none⟩, "ok")
+    | none => (w, "bad-op")
+  | ["bnew"] => x .bnew
+  | ["bwrite"] => x .bwrite
+  | ["bclose"] => x .bclose
+  | ["bs", k, v] => match parseHex k with
+    | some [] => (w, "err")
+    | some kb => if v = "-" then (x (.bstage (.bad (encKey kb)))).map id (fun _ => "err") else x (.bstage (.set (encKey kb) v))
+    | none => (w, "bad-op")
+  | ["bd", k] => match parseHex k with
+    | some [] => (w, "err")
+    | some kb => x (.bstage (.del (encKey kb)))
+    | none => (w, "bad-op")
+  | _ => let r := step1 w.st line; ({ w with st := r.1 }, r.2)
+
 end IdenaModel.Drv.C13
 
-def main : IO Unit := IdenaModel.Drv.runDriver (IdenaModel.Store.Overlay.init []) IdenaModel.Drv.C13.step
+def main : IO Unit := IdenaModel.Drv.runDriver (⟨IdenaModel.Store.Overlay.init [], none⟩ : IdenaModel.Store.Staged IdenaModel.Store.Overlay) IdenaModel.Drv.C13.step
